@@ -23,7 +23,7 @@ func registerC04() {
 			"every 29th position, thorough = all 2^15 patterns at every position; Decode (every fifth time with the unknown-item options and a logger) and CheckIntegrity must both return an error. Family headers: header sizes x protocol " +
 			"versions x profile versions x stored CRC {correct, 0, each single-bit error, PRNG} and every single-byte corruption of bytes 1-3, 8-13 of a correct 14-byte header, " +
 			"each inside an otherwise valid file with recomputed file CRC: CheckIntegrity(headerOnly), DecodeHeader, Decode and Header.CheckIntegrity must all agree with the " +
-			"reference verdict. Family large-bursts: model streams of 5-120 KB and the device files up to 400 KB, each corrupted at 400 (quick) / 3000 (thorough) PRNG bit positions (concentrated around the decoder's 4096-byte buffer boundaries, record boundaries and the trailing CRC) with PRNG burst patterns of span <= 16. Family accepted: streams Decode accepts (model, device, Encode output, and model streams padded to data sizes at and around multiples of the 4096-byte read buffer) must pass CheckIntegrity. A case is one corrupted file; distinct by construction",
+			"reference verdict. Family large-bursts: model streams of 5-120 KB and the device files up to 400 KB, each corrupted at 400 (quick) / 3000 (thorough) PRNG bit positions (concentrated around the decoder's 4096-byte buffer boundaries, record boundaries and the trailing CRC) with PRNG burst patterns of span <= 16. Family accepted: every output of a successful Encode of an API-built File (into a plain buffer, a file on disk, a bytes.Buffer already holding data, a bufio.Writer, a seekable in-memory writer; 12- and 14-byte headers) must pass CheckIntegrity; streams Decode accepts (model, device, Encode output, and model streams padded to data sizes at and around multiples of the 4096-byte read buffer) must pass CheckIntegrity. A case is one corrupted file; distinct by construction",
 		Assume:        []string{"'contiguous bits' are contiguous in the order the reflected CRC consumes them (LSB first); any error counts as detection"},
 		MinNontrivial: 20000,
 		Families: []lib.Family{
